@@ -1364,71 +1364,71 @@ func loaderTable(c *Check) (lp *ssa.Function, mapVar, muVar *ssa.Alloc) {
 // is released between the lookup and the insert, both can see "absent" and the second insert replaces the
 // first package: its targets vanish without an error.
 func ruleTableInsertAtomic(c *Check, rule string) {
-	c.Rule(rule, "in the loader goroutines every insert into the shared package map is reached from the lookup of that map that decided it without the map's lock being released in between (or the lookup is repeated after re-acquiring)", 1)
-	lp, mapVar, muVar := loaderTable(c)
-	if lp == nil || mapVar == nil || muVar == nil {
-		c.Unknown(rule, "lookup-and-insert-in-one-critical-section", "anchor-unresolved: the loader's shared package map (a local of the function that starts the file walker) or its mutex not found", "-")
-		return
-	}
-	want := engine.ExprKey(muVar)
-	n := 0
-	for _, fn := range engine.AnonFuncsDeep(lp) {
-		var lookups, updates, releases []ssa.Instruction
-		isMap := func(v ssa.Value) bool {
-			ld, ok := v.(*ssa.UnOp)
-			if !ok || ld.Op != token.MUL {
-				return false
-			}
-			if fv, ok := ld.X.(*ssa.FreeVar); ok {
-				return fv.Name() == mapVar.Comment
-			}
-			return ld.X == ssa.Value(mapVar)
+	c.Rule(rule, "in internal/loading every insert into a package table (map[string]*model.Package) is reached from the lookup of that table that decided it without a mutex being released in between (or the lookup is repeated after re-acquiring)", 1)
+	isTable := func(v ssa.Value) bool {
+		m, ok := v.Type().Underlying().(*types.Map)
+		if !ok || engine.TypeKey(m.Elem()) != "model.Package" {
+			return false
 		}
+		return isStringType(m.Key())
+	}
+	n := 0
+	for _, fn := range c.P.Funcs {
+		if !engine.InPackage(fn, "loading") {
+			continue
+		}
+		var lookups, updates, releases []ssa.Instruction
 		for _, b := range fn.Blocks {
 			for _, in := range b.Instrs {
 				switch x := in.(type) {
 				case *ssa.Lookup:
-					if isMap(x.X) {
+					if isTable(x.X) {
 						lookups = append(lookups, x)
 					}
 				case *ssa.MapUpdate:
-					if isMap(x.Map) {
+					if isTable(x.Map) {
 						updates = append(updates, x)
 					}
 				case *ssa.Call:
-					if op, ok := engine.ClassifyLock(x); ok && !op.Acquire && op.Key == want {
+					if op, ok := engine.ClassifyLock(x); ok && !op.Acquire {
 						releases = append(releases, x)
 					}
 				}
 			}
 		}
-		isLookup := func(in ssa.Instruction) bool {
-			for _, l := range lookups {
-				if l == in {
-					return true
-				}
-			}
-			return false
+		sameTable := func(lk *ssa.Lookup, mu *ssa.MapUpdate) bool {
+			return engine.ExprKey(lk.X) == engine.ExprKey(mu.Map) || sameVar(lk.X, mu.Map)
 		}
-		for _, mu := range updates {
+		for _, ui := range updates {
+			mu := ui.(*ssa.MapUpdate)
 			n++
 			bad := ""
-			for _, lk := range lookups {
+			decided := 0
+			isLookup := func(in ssa.Instruction) bool {
+				lk, ok := in.(*ssa.Lookup)
+				return ok && sameTable(lk, mu)
+			}
+			for _, li := range lookups {
+				lk := li.(*ssa.Lookup)
+				if !sameTable(lk, mu) {
+					continue
+				}
+				decided++
 				for _, r := range releases {
-					a, _ := engine.PathExists(fn, lk, engine.IsInstr(r), engine.PathQuery{Shallow: true, CutInstr: func(in ssa.Instruction) bool { return in != lk && isLookup(in) }})
+					a, _ := engine.PathExists(fn, lk, engine.IsInstr(r), engine.PathQuery{Shallow: true, CutInstr: func(in ssa.Instruction) bool { return in != ssa.Instruction(lk) && isLookup(in) }})
 					b, _ := engine.PathExists(fn, r, engine.IsInstr(mu), engine.PathQuery{Shallow: true, CutInstr: isLookup})
 					if a && b {
 						bad = "the lock is released at " + c.P.InstrPos(r) + " between the lookup (" + c.P.InstrPos(lk) + ") and this insert"
 					}
 				}
 			}
-			if len(lookups) == 0 {
-				bad = "the insert is not preceded by a lookup of the same map"
+			if decided == 0 {
+				continue // an unconditional insert (building a fresh table) decides nothing
 			}
-			c.Require(bad == "", rule, "lookup-and-insert-in-one-critical-section/"+c.P.FuncName(engine.TopFunc(fn)), "no release of "+want+" lies between the deciding lookup and the insert", bad+": two goroutines that load package files of the same directory can both find it absent, and the later insert silently replaces the earlier package (its targets are gone: fewer targets are built than the patterns match, and which ones depends on the schedule)", c.P.InstrPos(mu))
+			c.Require(bad == "", rule, "lookup-and-insert-in-one-critical-section/"+c.P.FuncName(engine.TopFunc(fn)), "no lock release lies between the deciding lookup and the insert", bad+": two goroutines that load package files of the same directory can both find it absent, and the later insert silently replaces the earlier package (its targets are gone: fewer targets are built than the patterns match, and which ones depends on the schedule)", c.P.InstrPos(mu))
 		}
 	}
 	if n == 0 {
-		c.Unknown(rule, "lookup-and-insert-in-one-critical-section", "no insert into the shared package map found in the loader goroutines", "-")
+		c.Unknown(rule, "lookup-and-insert-in-one-critical-section", "no insert into a package table found in internal/loading", "-")
 	}
 }
